@@ -84,36 +84,59 @@ def issue(ver, name, value, ti, dictsec, si):
 
 
 # ------------------------------------------------------------------------------------------ 1
-def classify_rt(ver, ni, cp, value, ti, dn, dictsec, si):
-    if ver == 2 and len(cp) == 1 and ord(cp) > 127:
+# CrossHair realises (enumerates) symbolic `bytes` at bytes.split / bytes.partition, which every decoder
+# starts with, and a free code point is enumerated by utf8()+split as well: a round trip over free data
+# can therefore never be exhausted.  The data of the round trip is chosen BY THE SOLVER from pools of
+# format-relevant values (separator, digits, '=', newline, non-ASCII of 2/3/4 UTF-8 bytes, NUL, 0xff),
+# the clock offset stays an unbounded-precision symbolic integer.
+CPS = ["", "|", ":", "\n", "\xe9", "\U00010000", "a", "0", "=", "\u20ac"]          # quick: the first RC=6
+VALS = [b"", b"a", b"\xff", b"|", b"ab\x00", b"2|1:0|", b"1600000000", b"\n", b"YQ==", b"abc"]   # quick: first RV=4
+
+
+def classify_rt(ver, ni, ci, vi, ti, dn, dictsec, si):
+    if ver == 2 and 0 <= ci < len(CPS) and len(CPS[ci]) == 1 and ord(CPS[ci]) > 127:
         return "v2-nonascii-name-length"
-    if ver == 2 and cp == "\n":
+    if ver == 2 and 0 <= ci < len(CPS) and CPS[ci] == "\n":
         return "v2-newline-in-name"
     return None
 
 
-def pre_rt(ver: int, ni: int, cp: str, value: bytes, ti: int, dn: int, dictsec: bool, si: int) -> bool:
-    if "v2-nonascii-name-length" in P.exclude and ver == 2 and len(cp) == 1 and ord(cp) > 127:
-        return False
-    if "v2-newline-in-name" in P.exclude and ver == 2 and cp == "\n":
-        return False
-    if not (1 <= ver <= 2 and 0 <= ni < len(NAMES) and len(cp) <= 1 and len(value) <= P.V):
+def pre_rt(ver: int, ni: int, ci: int, vi: int, ti: int, dn: int, dictsec: bool, si: int) -> bool:
+    if P.nshards > 1:
+        # pinned per shard by equality: shards 0-3 = v1 x creation time, 4-11 = v2 x creation time x secret form
+        k = P.shard
+        if k < 4:
+            if ver != 1 or ti != k:
+                return False
+        elif ver != 2 or ti != (k - 4) % 4 or dictsec != ((k - 4) // 4 == 1):
+            return False
+    if not (1 <= ver <= 2 and 0 <= ni < P.RN and 0 <= ci < P.RC and 0 <= vi < P.RV):
         return False
     if not (0 <= ti < len(TIMES) and 0 <= dn <= MAXAGE and 0 <= si <= 1):
         return False
     if ver == 1 and dictsec:
         return False
-    return in_shard(ti + 4 * (ver - 1) + 8 * len(value) + 8 * (P.V + 1) * len(cp))
+    if not dictsec and si != 1 and P.tier == "quick":
+        return False          # quick: which of the two plain secrets is used only matters for key dictionaries
+    if len(P.exclude) > 0 and classify_rt(ver, ni, ci, vi, ti, dn, dictsec, si) in P.exclude:
+        return False
+    return True
 
 
-@harness(pre=pre_rt, quick=dict(V=1, timeout=45, reach_timeout=60), thorough=dict(V=4, timeout=900),
-         nshards=dict(quick=32, thorough=80), reach=["rt_v1", "rt_v2_dict", "rt_last_second"],
+@harness(pre=pre_rt, quick=dict(RN=2, RC=6, RV=3, timeout=250, reach_timeout=60),
+         thorough=dict(RN=4, RC=10, RV=10, timeout=1400),
+         nshards=dict(quick=12, thorough=12), reach=["rt_v1", "rt_v2_dict", "rt_last_second"],
          classify=classify_rt,
          units=["web.create_signed_value", "web.decode_signed_value", "web._get_version",
                 "web._decode_signed_value_v1", "web._decode_signed_value_v2", "web._decode_fields_v2",
                 "web.get_signature_key_version"],
-         stubs=STUBS, outside=OUTSIDE)
-def h_roundtrip(ver: int, ni: int, cp: str, value: bytes, ti: int, dn: int, dictsec: bool, si: int):
+         stubs=STUBS + ["round trip data chosen by symbolic index from pools (bytes.split/partition and utf8() realise "
+                        "symbolic data): name = pool + one of {none,|,:,LF,e-acute,U+10000; thorough also a,0,=,euro sign}; value from "
+                        "{empty,a,ff,|; thorough also ab NUL,'2|1:0|',1600000000,LF,YQ==,abc}; clock offset = symbolic int 0..31 days"],
+         outside=OUTSIDE + ["names/values outside the pools"])
+def h_roundtrip(ver: int, ni: int, ci: int, vi: int, ti: int, dn: int, dictsec: bool, si: int):
+    cp = CPS[ci]
+    value = VALS[vi]
     name = mkname(ni, cp)
     s = issue(ver, name, value, ti, dictsec, si)
     now = TIMES[ti] + dn
@@ -125,13 +148,34 @@ def h_roundtrip(ver: int, ni: int, cp: str, value: bytes, ti: int, dn: int, dict
     if dn == MAXAGE:
         reached("rt_last_second")
     assert got == value, "round trip: decode returned %r for value %r" % (got, value)
-    # also as str, and with min_version == version
-    if cp == "":     # ASCII signed value: also presented as str (the cookie path)
-        got2 = web.decode_signed_value(secret_for(dictsec, si), name, s.decode("latin1"),
-                                       clock=lambda: now, min_version=ver)
-        assert got2 == value
     kv = web.get_signature_key_version(s)
     assert kv == (None if ver == 1 else (si if dictsec else 0)), "key version %r" % (kv,)
+
+
+def pre_exp(ver: int, ti: int, dn: int, late: int, dictsec: bool) -> bool:
+    return (1 <= ver <= 2 and 0 <= ti < len(TIMES) and 0 <= dn <= MAXAGE and 1 <= late
+            and not (ver == 1 and dictsec) and in_shard(ver - 1))
+
+
+@harness(pre=pre_exp, quick=dict(timeout=120, reach_timeout=60), thorough=dict(timeout=300), nshards=2,
+         reach=["expired_none", "str_presentation"],
+         units=["web.decode_signed_value", "web._decode_signed_value_v1", "web._decode_signed_value_v2"],
+         stubs=STUBS + ["fixed name 'fo' and value 'a'; creation time from the pool; clock offsets symbolic ints: "
+                        "dn in [0, max_age] decodes, max_age + late (late >= 1, unbounded) does not"],
+         outside=OUTSIDE)
+def h_expiry(ver: int, ti: int, dn: int, late: int, dictsec: bool):
+    """Window edge: valid at every second of [t, t + max_age_days], None at any later second; the str
+    presentation (cookie path) with min_version == version gives the same result."""
+    s = issue(ver, "fo", b"a", ti, dictsec, 1)
+    sec = secret_for(dictsec, 1)
+    now = TIMES[ti] + dn
+    assert web.decode_signed_value(sec, "fo", s, clock=lambda: now) == b"a"
+    reached("str_presentation")
+    assert web.decode_signed_value(sec, "fo", s.decode("latin1"), clock=lambda: now, min_version=ver) == b"a"
+    after = TIMES[ti] + MAXAGE + late
+    got = web.decode_signed_value(sec, "fo", s, clock=lambda: after)
+    reached("expired_none")
+    assert got is None, "expired value still decodes"
 
 
 # ------------------------------------------------------------------------------------------ 2
@@ -247,38 +291,53 @@ def h_forge(ver: int, ni: int, cp: str, value: bytes, ti: int, dictsec: bool, si
 
 
 # ------------------------------------------------------------------------------------------ 3
-def classify_total(pi, free, asstr, dictsec, ni, minv):
-    if dictsec and minv == 1 and web._get_version(TPFX[pi] + bytes(free)) == 1:
+ALPHA = [b"|", b":", b"0", b"2", b"-", b"a", b"=", b"\x80", b"\n", b"\x00", b"1", b"9", b" ", b"+"]   # quick: first NA=8
+TPFX = [b"", b"2|", b"2|1:0|", b"2|1:0|1:1|0:|", b"2|1:0|1:1|0:|0:|", b"1|", b"|", b"YQ==|1|"]
+
+
+def mkfree(flen, f0, f1, f2):
+    return b"".join([ALPHA[i] for i in (f0, f1, f2)[:flen]])
+
+
+def classify_total(pi, flen, f0, f1, f2, asstr, dictsec, ni, minv):
+    if dictsec and minv == 1 and web._get_version(TPFX[pi] + mkfree(flen, f0, f1, f2)) == 1:
         return "dict-secret-v1-assert"
     return None
 
 
-TPFX = [b"", b"2|", b"2|1:0|", b"2|1:0|1:1|0:|", b"2|1:0|1:1|0:|0:|", b"1|", b"|", b"YQ==|1|"]
-
-
-def pre_total(pi: int, free: bytes, asstr: bool, dictsec: bool, ni: int, minv: int) -> bool:
+def pre_total(pi: int, flen: int, f0: int, f1: int, f2: int, asstr: bool, dictsec: bool, ni: int,
+              minv: int) -> bool:
     if P.nshards > 1:
         # pinned per shard by equality (prefix index, free length)
-        if pi != P.shard % len(TPFX) or len(free) != P.shard // len(TPFX):
+        if pi != P.shard % len(TPFX) or flen != P.shard // len(TPFX):
             return False
-    # the name only matters after a signature matched, which a short input cannot achieve: TN names
-    if not (0 <= pi < len(TPFX) and len(free) <= P.L and 0 <= ni < P.TN and 1 <= minv <= 2):
+    na = P.NA
+    if not (0 <= pi < len(TPFX) and 0 <= flen <= P.L and 0 <= f0 < na and 0 <= f1 < na and 0 <= f2 < na):
         return False
-    if "dict-secret-v1-assert" in P.exclude and dictsec and minv == 1 and web._get_version(TPFX[pi] + free) == 1:
+    if (flen < 1 and f0 != 0) or (flen < 2 and f1 != 0) or (flen < 3 and f2 != 0):
+        return False          # unused positions pinned
+    # the name only matters after a signature matched, which a short input cannot achieve: TN names
+    if not (0 <= ni < P.TN and 1 <= minv <= 2):
+        return False
+    if "dict-secret-v1-assert" in P.exclude and classify_total(pi, flen, f0, f1, f2, asstr, dictsec, ni, minv):
         return False
     return True
 
 
-@harness(pre=pre_total, quick=dict(L=2, TN=1, timeout=120, reach_timeout=200),
-         thorough=dict(L=5, TN=4, timeout=1200, reach_timeout=300),
-         nshards=dict(quick=24, thorough=48),    # = len(TPFX) * (L+1) reach=["v2_fields_parsed", "v1_three_parts"],
+@harness(pre=pre_total, quick=dict(L=2, TN=1, NA=8, timeout=250, reach_timeout=120),
+         thorough=dict(L=3, TN=4, NA=14, timeout=1400, reach_timeout=300),
+         nshards=dict(quick=24, thorough=32),    # = len(TPFX) * (L+1)
+         reach=["v2_fields_parsed", "v1_three_parts"],
          classify=classify_total,
          units=["web.decode_signed_value", "web._get_version", "web._decode_signed_value_v1",
                 "web._decode_signed_value_v2", "web._decode_fields_v2", "web.get_signature_key_version"],
          stubs=STUBS + ["input = pooled prefix (empty, 2|, 2|1:0|, 2|1:0|1:1|0:|, 2|1:0|1:1|0:|0:|, '1|', '|', "
-                        "'YQ==|1|') + any free bytes up to L (also presented as latin-1 str)"],
-         outside=OUTSIDE + ["free part longer than L"])
-def h_total(pi: int, free: bytes, asstr: bool, dictsec: bool, ni: int, minv: int):
+                        "'YQ==|1|') + up to L bytes, each chosen by symbolic index from the alphabet of format-relevant "
+                        "bytes {| : 0 2 - a = 0x80; thorough also LF NUL 1 9 SP +} (bytes.split/partition realise symbolic bytes, so free "
+                        "bytes would only be enumerated); also presented as latin-1 str"],
+         outside=OUTSIDE + ["bytes outside the alphabet", "free part longer than L"])
+def h_total(pi: int, flen: int, f0: int, f1: int, f2: int, asstr: bool, dictsec: bool, ni: int, minv: int):
+    free = mkfree(flen, f0, f1, f2)
     s = TPFX[pi] + free
     v = s.decode("latin1") if asstr else s
     secret = KEYDICT if dictsec else "k1"
@@ -287,7 +346,7 @@ def h_total(pi: int, free: bytes, asstr: bool, dictsec: bool, ni: int, minv: int
         kv = web.get_signature_key_version(v)
     except Exception as e:
         raise AssertionError("reader raised %r on %r" % (e, s))
-    if pi == 4 and len(free) == 0:
+    if pi == 4 and flen == 0:
         assert kv == 0, "well-formed v2 field block must yield its key version"
         reached("v2_fields_parsed")
     if len(s.split(b"|")) == 3:
